@@ -149,6 +149,34 @@ def _raw_attrs_disk(path, fmt):
     return doc if fmt == 2 else doc.get("attributes", {})
 
 
+CLI_ENVS = {
+    # what a user at a colour terminal has
+    "tty-like": {"set": {"TERM": "xterm-256color", "COLUMNS": "80", "LINES": "24", "FORCE_COLOR": "1", "CLICOLOR_FORCE": "1",
+                         "COLORTERM": "truecolor"}, "unset": ["NO_COLOR"]},
+    # what a pipe / CI job has
+    "dumb": {"set": {"TERM": "dumb", "NO_COLOR": "1"}, "unset": ["COLUMNS", "LINES", "FORCE_COLOR", "CLICOLOR_FORCE", "COLORTERM"]},
+    "narrow": {"set": {"TERM": "xterm", "COLUMNS": "20"}, "unset": ["NO_COLOR", "FORCE_COLOR"]},
+}
+
+
+def _geff_info_subprocess(path, envname):
+    import os
+    import subprocess
+    import sys
+
+    env = dict(os.environ)
+    for k in CLI_ENVS[envname]["unset"]:
+        env.pop(k, None)
+    env.update(CLI_ENVS[envname]["set"])
+    env["PYTHONIOENCODING"] = "utf-8"
+    env["PYTHONWARNINGS"] = "ignore"
+    code = ("import warnings; warnings.simplefilter('ignore'); import sys, geff; "
+            f"assert geff.__file__.startswith({str(common.REPO)!r}), geff.__file__; "
+            "from geff._cli import app; app()")
+    p = subprocess.run([sys.executable, "-c", code, "info", path], capture_output=True, env=env, timeout=300)
+    return {"rc": p.returncode, "stdout": p.stdout.decode("utf-8", "replace"), "err": p.stderr.decode("utf-8", "replace")}
+
+
 def _has_nan(t):
     if isinstance(t, list):
         return any(_has_nan(x) for x in t)
@@ -331,6 +359,22 @@ def impl_obs(case):
                         if not _same(o4, obj):
                             zp.append({"fmt": fmt, "what": "geff info output does not read back to the same object",
                                        "text": res.stdout[:300]})
+                    # the real command in a child process, with a terminal-like and a dumb environment
+                    for envname in (case.get("cli_sub") or []):
+                        out = _geff_info_subprocess(path, envname)
+                        if out["rc"] != 0:
+                            zp.append({"fmt": fmt, "what": f"geff info ({envname} child process) exit {out['rc']}: {out['err'][-200:]}"})
+                            continue
+                        try:
+                            parsed = json.loads(out["stdout"])
+                        except Exception as e:  # noqa: BLE001
+                            zp.append({"fmt": fmt, "what": f"geff info ({envname} child process) output is not JSON: {e}",
+                                       "text": out["stdout"][:300]})
+                            continue
+                        _form(forms, f"geff info ({envname} child process, v{fmt} directory store)", parsed, dump_tok)
+                        if mc.canon(mc.enc(parsed)) != dump_tok:
+                            zp.append({"fmt": fmt, "what": f"geff info ({envname} child process) output does not read back to the "
+                                       "stored metadata", "text": out["stdout"][:300]})
         except Exception as e:  # noqa: BLE001
             zp.append({"what": "directory store / geff info", "exc": f"{type(e).__name__}: {str(e)[:200]}"})
     obs["zarr"] = zp
@@ -486,8 +530,8 @@ def judge(ck, case, im):
         break
     for p in im["zarr"]:
         what = p.get("what", "")
-        key = ("C08:foreign-attrs-changed" if "foreign" in what else "C08:json-text-roundtrip" if "geff info" in what
-               else "C08:zarr-attrs-roundtrip")
+        key = ("C08:foreign-attrs-changed" if "foreign" in what else "C08:geff-info-output-differs-from-stored-metadata"
+               if "geff info" in what else "C08:zarr-attrs-roundtrip")
         ck.fail(key, f"zarr attributes (format {p.get('fmt')}): {p.get('what') or p.get('exc')}", case, p, "equal object, foreign attributes preserved")
         break
     for p in im.get("rewrite", []):
@@ -533,6 +577,13 @@ def run(ck: common.Check):
     docs = exhaustive_presence() + units_and_types()
     nrand = 700 if ck.quick else 9000
     docs += [mc.gen_doc(ck.rng) for _ in range(nrand)]
+    # free text that output layers interpret (console markup, emoji codes, ANSI, format directives, long lines):
+    # every such string in every free-text field at once, plus random mixtures; all of them go through `geff info`
+    tricky = [mc.gen_doc_tricky(ck.rng, everywhere=t) for t in mc.TRICKY]
+    tricky += [mc.gen_doc_tricky(ck.rng) for _ in range(100 if ck.quick else 1500)]
+    n_plain = len(docs)
+    docs += tricky
+    sub_every = max(1, len(tricky) // (4 if ck.quick else 30))
     clearable = ["axes", "sphere", "ellipsoid", "track_node_props", "related_objects", "display_hints"]
 
     def rewrites(d):
@@ -549,7 +600,9 @@ def run(ck: common.Check):
         foreign = mc.gen_extra(ck.rng) if ck.rng.random() < 0.7 else {}
         foreign.pop("geff", None)
         cases.append({"doc": d, "foreign": foreign, "via": ("validate", "kwargs", "json")[i % 3], "stale": i % 5 == 0,
-                      "disk": i % (60 if ck.quick else 120) == 7 or (_nonfinite(d) and i % 4 == 0),
+                      "disk": i % (60 if ck.quick else 120) == 7 or (_nonfinite(d) and i % 4 == 0) or i >= n_plain,
+                      "cli_sub": (["tty-like", "dumb", "narrow"] if (i >= n_plain and (i - n_plain) % sub_every == 3)
+                                  or i == 0 else []),
                       "rewrite": rewrites(d) if i % 3 == 0 else [],
                       "mut_idx": [ck.rng.randrange(10 ** 6) for _ in range(nmut)]})
     # the first documents get *all* their mutations
@@ -601,6 +654,8 @@ def run(ck: common.Check):
     ck.extra["serialised_forms_judged"] = sum(len(im.get("forms", [])) for im in impl)
     ck.extra["documents_with_nonfinite_axis_values"] = sum(1 for c in cases if "doc" in c and _nonfinite(c["doc"]))
     ck.extra["store_rewrite_histories"] = 2 * sum(len(c.get("rewrite", [])) for c in cases)
+    ck.extra["documents_with_markup_like_free_text"] = len(tricky)
+    ck.extra["geff_info_child_processes"] = 2 * sum(len(c.get("cli_sub") or []) for c in cases)
     ck.extra["documents_through_disk_and_cli"] = sum(1 for c in cases if c.get("disk"))
     if model is not None:
         for (idx, kind, mi), mo in zip(owners, model):
